@@ -520,6 +520,12 @@ def run(project, chk):
                     if "resolve_variable" in oshow(args[0]):
                         chk.check(t_ok and b_ok, "X6", fi.short, norm_text(c), project.loc(m, c), "the pair is (resolved text colour, resolved own background or default_bg)", how=f"text: {oshow(args[0])[:80]}; bg: {b_txt[:100]}",
                                   message=f"the pair judged is not (resolved colour, resolved background-color or --default-bg): text={oshow(args[0])[:80]}, bg={b_txt[:100]}")
+    # the settings denote the command line's values for every rule: none of them is re-bound while the rules are walked
+    settings = [p for p in ("default_bg", "mode", "premium") if p in fi.params()]
+    rebound = [(n, p) for n in cfg.nodes if n.id in body for p in settings if p in node_stores_of(n)]
+    chk.check(not rebound, "X6", fi.short, norm_text(rebound[0][0].ast)[:80] if rebound else "settings", project.loc(m, rebound[0][0].ast) if rebound else project.loc(m, fi.node),
+              "default_bg / mode / premium are the command line's values for every rule of the sheet", how=f"store census of {settings} inside the rule loop ({len(body)} CFG nodes)",
+              message=f"{rebound[0][1] if rebound else ''} is re-bound while the rules are walked: later rules are judged against a value left over from an earlier rule, not the command line's")
     # --default-bg default
     dflt = None
     for d in main.node.decorator_list:
